@@ -45,6 +45,7 @@ func init() {
 			{Name: "Walk starts at the first statement only", File: "utils/visitor.go", Old: "v.Visit(VisitorContext{Visitor: v}, t.Root)", New: "v.Visit(VisitorContext{Visitor: v}, t.Root.Nodes[0])", Rule: "C20.walk"},
 			{Name: "new node type without visitor support", File: "node.go", Old: "type ReturnNode struct {", New: "type DebugNode struct {\n\tNodeBase\n\tValue Expression\n}\n\nfunc (n *DebugNode) String() string { return \"debug\" }\n\nfunc (t *Template) newDebug(v Expression) *DebugNode { return &DebugNode{Value: v} }\n\ntype ReturnNode struct {", Rule: "C20.cases"},
 			{Name: "new child field without visitor support", File: "node.go", Old: "type ReturnNode struct {\n\tNodeBase\n\tValue Expression\n", New: "type ReturnNode struct {\n\tNodeBase\n\tValue Expression\n\tExtra Expression\n", Rule: "C20.fields"},
+			{Name: "try body visited only when a catch clause exists (guard clause moved up)", File: "utils/visitor.go", Old: "\tvc.visitNode(tryNode.List)\n\tif tryNode.Catch != nil {", New: "\tif tryNode.Catch == nil {\n\t\treturn\n\t}\n\tvc.visitNode(tryNode.List)\n\tif tryNode.Catch != nil {", Rule: "C20.fields"},
 			{Name: "catch list visited only when an error variable exists", File: "utils/visitor.go", Old: "\t\tif tryNode.Catch.List != nil {\n\t\t\tvc.visitNode(tryNode.Catch.List)\n\t\t}\n", New: "\t\tif tryNode.Catch.Err != nil && tryNode.Catch.List != nil {\n\t\t\tvc.visitNode(tryNode.Catch.List)\n\t\t}\n", Rule: "C20.fields"},
 		},
 	})
@@ -793,15 +794,54 @@ func (r *c20) collect(h *an.Fn, prefix string, guards []string, seen map[*an.Fn]
 		return "", false
 	}
 
+	// guardClause: `if <child path> == nil { return }` without else
+	guardClauses := map[ast.Stmt]bool{}
+	var earlyNil []string
+	guardClause := func(st ast.Stmt) (string, bool) {
+		is, ok := st.(*ast.IfStmt)
+		if !ok || is.Init != nil || is.Else != nil || len(is.Body.List) != 1 {
+			return "", false
+		}
+		if ret, ok := is.Body.List[0].(*ast.ReturnStmt); !ok || len(ret.Results) != 0 {
+			return "", false
+		}
+		b, ok := an.Unparen(is.Cond).(*ast.BinaryExpr)
+		if !ok || b.Op != token.EQL {
+			return "", false
+		}
+		if tv, ok := info.Types[b.Y]; !ok || !tv.IsNil() {
+			return "", false
+		}
+		return pathOf(b.X)
+	}
+	// outside reports the guard clause that makes a visit of pth conditional, if any
+	outside := func(pth string) string {
+		for _, g := range earlyNil {
+			if pth != g && !strings.HasPrefix(pth, g+".") && !strings.HasPrefix(pth, g+"[]") {
+				return fmt.Sprintf("only when %s is not nil (early return before it)", g)
+			}
+		}
+		return ""
+	}
 	var walk func(n ast.Node, guards []string, bad string)
 	walk = func(n ast.Node, guards []string, bad string) {
 		switch s := n.(type) {
 		case nil:
 			return
 		case *ast.BlockStmt:
+			// a guard clause `if x.F == nil { return }` protects the rest of the block exactly like an
+			// enclosing `if x.F != nil { … }`; visits of anything outside x.F after it are conditional
+			nEarly := len(earlyNil)
 			for _, st := range s.List {
+				if g, ok := guardClause(st); ok {
+					guardClauses[st] = true
+					guards = append(append([]string{}, guards...), g)
+					earlyNil = append(earlyNil, g)
+					continue
+				}
 				walk(st, guards, bad)
 			}
+			earlyNil = earlyNil[:nEarly]
 		case *ast.IfStmt:
 			g, isGuard := "", false
 			if s.Init == nil {
@@ -847,6 +887,9 @@ func (r *c20) collect(h *an.Fn, prefix string, guards []string, seen map[*an.Fn]
 				name == "(utils.VisitorContext).Visit" && len(call.Args) == 1:
 				arg := call.Args[len(call.Args)-1]
 				if pth, ok := pathOf(arg); ok {
+					if o := outside(pth); o != "" && bad == "" {
+						bad = o
+					}
 					out = append(out, visitCall{path: pth, call: call, guards: guards, badCtx: bad, inHelper: h})
 				} else {
 					out = append(out, visitCall{path: "?" + an.Str(arg), call: call, guards: guards, badCtx: bad, inHelper: h})
@@ -858,6 +901,9 @@ func (r *c20) collect(h *an.Fn, prefix string, guards []string, seen map[*an.Fn]
 						if callee.Name == "utils.(VisitorContext).visitListNode" {
 							if pth != strings.TrimSuffix(prefix, ".") || prefix != "" {
 								// iterating a child list directly: the child ListNode itself is skipped, its elements are visited
+								if o := outside(pth); o != "" && bad == "" {
+									bad = o
+								}
 								out = append(out, visitCall{path: pth, call: call, guards: guards, badCtx: bad, inHelper: h})
 								return
 							}
@@ -868,6 +914,9 @@ func (r *c20) collect(h *an.Fn, prefix string, guards []string, seen map[*an.Fn]
 						}
 						sub := r.collect(callee, np, guards, seen)
 						for i := range sub {
+							if o := outside(sub[i].path); o != "" && sub[i].badCtx == "" {
+								sub[i].badCtx = o
+							}
 							if bad != "" && sub[i].badCtx == "" {
 								sub[i].badCtx = bad
 							}
@@ -902,7 +951,7 @@ func (r *c20) collect(h *an.Fn, prefix string, guards []string, seen map[*an.Fn]
 			}
 			return true
 		})
-		if hasRet && i != len(h.Body.List)-1 {
+		if hasRet && i != len(h.Body.List)-1 && !guardClauses[st] {
 			for j := range out {
 				if out[j].inHelper == h && out[j].call.Pos() > st.End() && out[j].badCtx == "" {
 					out[j].badCtx = fmt.Sprintf("after an early return at %s", r.p.RelPos(st.Pos()))
